@@ -33,6 +33,7 @@ class Obligation:
         self.ms = 0
         self.model = None
         self.detail = ""
+        self.hints = []
 
 
 class Oracle:
@@ -91,6 +92,7 @@ class Ctx:
         self.dead = False
         self.effects = None     # ghost effect trace (list cell) when the contract uses one
         self.frame_violations = []
+        self.hints = []         # terms scanned for recursive-spec-function applications to unfold (never asserted)
 
     # ---- naming / assumptions --------------------------------------------
     def fresh_name(self, hint="v"):
@@ -165,6 +167,7 @@ class Ctx:
             goal = z3.Implies(z3.And(*self.guards), goal)
         oid = f"{self.contract.cid}:{kind}:{label}"
         ob = Obligation(oid, kind, label, list(self.pc), goal, self.path_id(), info, top)
+        ob.hints = self.hints
         self.obligations.append(ob)
         # after asserting, the fact may be assumed on the rest of the path
         self.pc.append(goal)
